@@ -1,16 +1,542 @@
-//! Suite C18 (stub — replaced when the property's harness is built).
-#![allow(dead_code, unused_imports)]
+//! C18: `get_rx_payload` of the real SX126x / SX127x drivers over the fake chips, the real
+//! `RadioBuffer` (lorawan-device/src/radio.rs, compiled into this crate by path because it is
+//! `pub(crate)` there) and the real `LorawanRadio::rx_single` adapter.
+//!
+//! Op lines (answers are compared with `lean/Driver/C18.lean`):
+//!   C18 rx <126|127> <status> <len> <off> <alt> <bufsize> <implicit> <fault|-> <seed>
+//!        status  SX126x status byte of GetRxBufferStatus (ignored by the SX127x)
+//!        len     PayloadLengthRx / RegRxNbBytes          off  RxStartBufferPointer / RegFifoRxCurrentAddr
+//!        alt     SX126x: register 0x0702 (payload length the chip was configured with);
+//!                SX127x: PacketParams.payload_length     (both only used in implicit-header mode)
+//!        answer  `<result> <caller buffer afterwards> <canary-ok|canary-SMASHED>`
+//!   C18 rxp …same arguments…      SX127x only: RegFifoAddrPtr the chip is left with
+//!   C18 rx_digest <chip> <status> <bufsize> <implicit> <seed>   FNV digest over a=0..255 × off=0..255
+//!        (explicit header: len=a, alt=a^0x5a; implicit: alt=a, len=a^0x5a)
+//!   C18 rb <N> <pos>              RadioBuffer<N>: set_pos(pos); as_mut_for_read / as_ref_for_read lengths
+//!   C18 rbext <N> <pos> <len>     RadioBuffer<N>: set_pos(pos); extend_from_slice(len bytes)
+//!   C18 adapter <126|127> <len> <off> <seed>   LorawanRadio::rx_single into RadioBuffer<256>.as_mut(),
+//!        then set_pos(n) and as_mut_for_read(): the bytes the MAC gets
+use crate::fakechip::*;
 use crate::util::*;
+use lora_phy::mod_params::{PacketParams, RadioError};
+use lora_phy::mod_traits::RadioKind;
+use lora_phy::{sx126x, sx127x};
+use std::panic::AssertUnwindSafe;
 
-pub fn eval(_op: &str) -> String {
-    "bad-op".into()
+#[allow(dead_code, unused_imports, unexpected_cfgs)]
+#[path = "../../repo-link/lorawan-device/src/radio.rs"]
+mod radio_src;
+use radio_src::RadioBuffer;
+
+pub const BUF_SIZES: [usize; 6] = [0, 1, 12, 64, 255, 256];
+
+pub fn chip_byte(seed: u64, i: usize) -> u8 {
+    ((seed as usize + 31 * i) % 256) as u8
+}
+pub fn caller_byte(i: usize) -> u8 {
+    ((0xC3 + 5 * i) % 256) as u8
+}
+fn canary_byte(i: usize) -> u8 {
+    (0x5A ^ (i * 3)) as u8
 }
 
-pub fn expand(_op: &str) -> Vec<String> {
+#[derive(Clone, Copy)]
+struct Case {
+    chip: u32,
+    status: u8,
+    len: u8,
+    off: u8,
+    alt: u8,
+    bufsize: usize,
+    implicit: bool,
+    fault: Option<usize>,
+    seed: u64,
+}
+
+enum Out {
+    Ok(u8),
+    Err(RadioError),
+    Panic,
+}
+
+struct Obs {
+    out: Out,
+    buf: Vec<u8>,
+    canary_ok: bool,
+    ptr: u8,
+}
+
+fn mk126(w: &Shared) -> sx126x::Sx126x<FakeSpi, FakeIv, sx126x::Sx1262> {
+    sx126x::Sx126x::new(
+        FakeSpi(w.clone()),
+        FakeIv(w.clone()),
+        sx126x::Config { chip: sx126x::Sx1262, tcxo_ctrl: None, use_dcdc: true, rx_boost: false },
+    )
+}
+
+fn mk127(w: &Shared) -> sx127x::Sx127x<FakeSpi, FakeIv, sx127x::Sx1276> {
+    sx127x::Sx127x::new(
+        FakeSpi(w.clone()),
+        FakeIv(w.clone()),
+        sx127x::Config { chip: sx127x::Sx1276, tcxo_used: false, tx_boost: true, rx_boost: false },
+    )
+}
+
+fn setup_world(c: &Case) -> Shared {
+    let w = World::new(if c.chip == 126 { Kind::Sx126x } else { Kind::Sx127x });
+    {
+        let mut m = w.borrow_mut();
+        m.log_on = false;
+        for i in 0..256 {
+            m.buffer[i] = chip_byte(c.seed, i);
+        }
+        m.fault = c.fault;
+        if c.chip == 126 {
+            m.status = c.status;
+            m.rx_len = c.len;
+            m.rx_start = c.off;
+            m.regs[0x0702] = c.alt;
+        } else {
+            m.regs[0x13] = c.len;
+            m.regs[0x10] = c.off;
+            m.fifo_ptr = 0x77; // wherever the previous operation left it
+        }
+    }
+    w
+}
+
+fn observe(c: &Case) -> Obs {
+    const PAD: usize = 16;
+    let mut outer: Vec<u8> = (0..c.bufsize + 2 * PAD).map(canary_byte).collect();
+    for i in 0..c.bufsize {
+        outer[PAD + i] = caller_byte(i);
+    }
+    let w = setup_world(c);
+    let params = PacketParams {
+        preamble_length: 8,
+        implicit_header: c.implicit,
+        payload_length: if c.chip == 126 { 0x3C } else { c.alt },
+        crc_on: true,
+        iq_inverted: true,
+    };
+    let res = {
+        let slice = &mut outer[PAD..PAD + c.bufsize];
+        guarded(AssertUnwindSafe(|| {
+            if c.chip == 126 {
+                let mut rk = mk126(&w);
+                block_on(rk.get_rx_payload(&params, slice))
+            } else {
+                let mut rk = mk127(&w);
+                block_on(rk.get_rx_payload(&params, slice))
+            }
+        }))
+    };
+    let canary_ok = (0..PAD).all(|i| outer[i] == canary_byte(i))
+        && (PAD + c.bufsize..c.bufsize + 2 * PAD).all(|i| outer[i] == canary_byte(i));
+    let ptr = w.borrow().fifo_ptr;
+    Obs {
+        out: match res {
+            None => Out::Panic,
+            Some(Ok(n)) => Out::Ok(n),
+            Some(Err(e)) => Out::Err(e),
+        },
+        buf: outer[PAD..PAD + c.bufsize].to_vec(),
+        canary_ok,
+        ptr,
+    }
+}
+
+fn show_out(o: &Out) -> String {
+    match o {
+        Out::Ok(n) => format!("ok:{}", n),
+        Out::Err(e) => format!("err:{:?}", e),
+        Out::Panic => "PANIC".into(),
+    }
+}
+
+fn code_of(o: &Out) -> u64 {
+    match o {
+        Out::Ok(n) => *n as u64,
+        Out::Err(RadioError::OpError(s)) => 0x1000 + *s as u64,
+        Out::Err(RadioError::PayloadSizeMismatch(n, _)) => 0x2000 + *n as u64,
+        Out::Err(RadioError::SPI) => 0x3000,
+        Out::Err(RadioError::Busy) => 0x3001,
+        Out::Err(_) => 0x3fff,
+        Out::Panic => u64::MAX,
+    }
+}
+
+fn parse_case(w: &[&str]) -> Option<Case> {
+    if w.len() != 9 {
+        return None;
+    }
+    Some(Case {
+        chip: w[0].parse().ok().filter(|c| *c == 126 || *c == 127)?,
+        status: w[1].parse().ok()?,
+        len: w[2].parse().ok()?,
+        off: w[3].parse().ok()?,
+        alt: w[4].parse().ok()?,
+        bufsize: w[5].parse().ok().filter(|b| *b <= 4096)?,
+        implicit: w[6].parse::<u8>().ok()? != 0,
+        fault: if w[7] == "-" { None } else { Some(w[7].parse().ok()?) },
+        seed: w[8].parse().ok()?,
+    })
+}
+
+fn case_op(kind: &str, c: &Case) -> String {
+    format!(
+        "C18 {} {} {} {} {} {} {} {} {} {}",
+        kind,
+        c.chip,
+        c.status,
+        c.len,
+        c.off,
+        c.alt,
+        c.bufsize,
+        c.implicit as u8,
+        c.fault.map(|f| f.to_string()).unwrap_or("-".into()),
+        c.seed
+    )
+}
+
+fn digest_cases(chip: u32, status: u8, bufsize: usize, implicit: bool, seed: u64) -> Vec<Case> {
+    let mut v = Vec::with_capacity(65536);
+    for a in 0..=255u8 {
+        for off in 0..=255u8 {
+            let (len, alt) = if implicit { (a ^ 0x5a, a) } else { (a, a ^ 0x5a) };
+            v.push(Case { chip, status, len, off, alt, bufsize, implicit, fault: None, seed });
+        }
+    }
+    v
+}
+
+fn rb_case<const N: usize>(pos: usize) -> String {
+    match guarded(move || {
+        let mut b: RadioBuffer<N> = RadioBuffer::new();
+        b.set_pos(pos);
+        let m = b.as_mut_for_read().len();
+        let r = b.as_ref_for_read().len();
+        (m, r, b.as_mut().len())
+    }) {
+        Some((m, r, n)) => format!("ok:{},{},{}", m, r, n),
+        None => "PANIC".into(),
+    }
+}
+
+fn rbext_case<const N: usize>(pos: usize, len: usize) -> String {
+    match guarded(move || {
+        let mut b: RadioBuffer<N> = RadioBuffer::new();
+        for (i, x) in b.as_mut().iter_mut().enumerate() {
+            *x = caller_byte(i);
+        }
+        b.set_pos(pos);
+        let src: Vec<u8> = (0..len).map(|i| chip_byte(7, i)).collect();
+        match b.extend_from_slice(&src) {
+            Ok(()) => format!("ok:{} {}", b.as_ref_for_read().len(), hex(b.as_ref())),
+            Err(()) => format!("full {}", hex(b.as_ref())),
+        }
+    }) {
+        Some(s) => s,
+        None => "PANIC".into(),
+    }
+}
+
+fn adapter(chip: u32, len: u8, off: u8, seed: u64) -> String {
+    use lora_modulation::{Bandwidth, BaseBandModulationParams, CodingRate, SpreadingFactor};
+    use lora_phy::lorawan_radio::LorawanRadio;
+    use lorawan_device::async_device::radio::{PhyRxTx, RfConfig, RxConfig, RxMode, RxStatus};
+    let r = guarded(AssertUnwindSafe(|| {
+        let w = World::new(if chip == 126 { Kind::Sx126x } else { Kind::Sx127x });
+        w.borrow_mut().log_on = false;
+        let cfg = RxConfig {
+            rf: RfConfig {
+                frequency: 868_100_000,
+                bb: BaseBandModulationParams::new(SpreadingFactor::_7, Bandwidth::_125KHz, CodingRate::_4_5),
+                max_payload_len: 255,
+            },
+            mode: RxMode::Single { ms: 0 },
+        };
+        let arm = |w: &Shared| {
+            let mut m = w.borrow_mut();
+            for i in 0..256 {
+                m.buffer[i] = chip_byte(seed, i);
+            }
+            if chip == 126 {
+                m.rx_len = len;
+                m.rx_start = off;
+                m.irq_default = 0x0002; // RxDone
+            } else {
+                m.regs[0x13] = len;
+                m.regs[0x10] = off;
+                m.irq_default = 0x40; // RxDone
+            }
+        };
+        let mut rb: RadioBuffer<256> = RadioBuffer::new();
+        let res = if chip == 126 {
+            let lora = block_on(lora_phy::LoRa::new(mk126(&w), true, FakeDelay(w.clone()))).unwrap();
+            let mut radio: LorawanRadio<_, _, 22> = lora.into();
+            block_on(radio.setup_rx(cfg)).unwrap();
+            arm(&w);
+            block_on(radio.rx_single(rb.as_mut())).map_err(|_| ())
+        } else {
+            let lora = block_on(lora_phy::LoRa::new(mk127(&w), true, FakeDelay(w.clone()))).unwrap();
+            let mut radio: LorawanRadio<_, _, 20> = lora.into();
+            block_on(radio.setup_rx(cfg)).unwrap();
+            arm(&w);
+            block_on(radio.rx_single(rb.as_mut())).map_err(|_| ())
+        };
+        match res {
+            Ok(RxStatus::Rx(n, _q)) => {
+                rb.set_pos(n);
+                format!("ok:{} {}", n, hex(rb.as_mut_for_read()))
+            }
+            Ok(RxStatus::RxTimeout) => "timeout".into(),
+            Err(()) => "err".into(),
+        }
+    }));
+    r.unwrap_or("PANIC".into())
+}
+
+/// Evaluate one op line on the real code (generation, replay, bisection).
+pub fn eval(op: &str) -> String {
+    let w: Vec<&str> = op.split_whitespace().collect();
+    match w.as_slice() {
+        ["C18", "rx", rest @ ..] => {
+            let Some(c) = parse_case(rest) else { return "bad-op".into() };
+            let o = observe(&c);
+            format!("{} {} {}", show_out(&o.out), hex(&o.buf), if o.canary_ok { "canary-ok" } else { "canary-SMASHED" })
+        }
+        ["C18", "rxp", rest @ ..] => {
+            let Some(c) = parse_case(rest) else { return "bad-op".into() };
+            if c.chip != 127 {
+                return "bad-op".into();
+            }
+            let o = observe(&c);
+            format!("{} ptr={}", show_out(&o.out), o.ptr)
+        }
+        ["C18", "rx_digest", chip, status, bufsize, implicit, seed] => {
+            let (Ok(chip), Ok(status), Ok(bufsize), Ok(implicit), Ok(seed)) =
+                (chip.parse::<u32>(), status.parse::<u8>(), bufsize.parse::<usize>(), implicit.parse::<u8>(), seed.parse::<u64>())
+            else {
+                return "bad-op".into();
+            };
+            if (chip != 126 && chip != 127) || bufsize > 4096 {
+                return "bad-op".into();
+            }
+            let mut h = Fnv::new();
+            for c in digest_cases(chip, status, bufsize, implicit != 0, seed) {
+                let o = observe(&c);
+                h.word(code_of(&o.out));
+                for b in &o.buf {
+                    h.byte(*b);
+                }
+                h.byte(o.canary_ok as u8);
+            }
+            format!("{:016x}", h.0)
+        }
+        ["C18", "rb", n, pos] => {
+            let (Ok(n), Ok(pos)) = (n.parse::<usize>(), pos.parse::<usize>()) else { return "bad-op".into() };
+            match n {
+                1 => rb_case::<1>(pos),
+                16 => rb_case::<16>(pos),
+                255 => rb_case::<255>(pos),
+                256 => rb_case::<256>(pos),
+                _ => "bad-op".into(),
+            }
+        }
+        ["C18", "rbext", n, pos, len] => {
+            let (Ok(n), Ok(pos), Ok(len)) = (n.parse::<usize>(), pos.parse::<usize>(), len.parse::<usize>()) else {
+                return "bad-op".into();
+            };
+            if len > 600 {
+                return "bad-op".into();
+            }
+            match n {
+                1 => rbext_case::<1>(pos, len),
+                16 => rbext_case::<16>(pos, len),
+                255 => rbext_case::<255>(pos, len),
+                256 => rbext_case::<256>(pos, len),
+                _ => "bad-op".into(),
+            }
+        }
+        ["C18", "adapter", chip, len, off, seed] => {
+            let (Ok(chip), Ok(len), Ok(off), Ok(seed)) = (chip.parse::<u32>(), len.parse::<u8>(), off.parse::<u8>(), seed.parse::<u64>())
+            else {
+                return "bad-op".into();
+            };
+            if chip != 126 && chip != 127 {
+                return "bad-op".into();
+            }
+            adapter(chip, len, off, seed)
+        }
+        _ => "bad-op".into(),
+    }
+}
+
+/// Expand a digest op into its individual cases.
+pub fn expand(op: &str) -> Vec<String> {
+    let w: Vec<&str> = op.split_whitespace().collect();
+    if let ["C18", "rx_digest", chip, status, bufsize, implicit, seed] = w.as_slice() {
+        if let (Ok(chip), Ok(status), Ok(bufsize), Ok(implicit), Ok(seed)) =
+            (chip.parse::<u32>(), status.parse::<u8>(), bufsize.parse::<usize>(), implicit.parse::<u8>(), seed.parse::<u64>())
+        {
+            return digest_cases(chip, status, bufsize, implicit != 0, seed).iter().map(|c| case_op("rx", c)).collect();
+        }
+    }
     vec![]
 }
 
-pub fn run(_tier: &str, _seed: u64, dir: &str) {
-    let sink = Sink::new(dir);
-    sink.finish(dir, "stub", false, serde_json::json!({}));
+fn class_of(c: &Case, ans: &str) -> String {
+    let r = if ans.starts_with("ok:0 ") {
+        "ok-empty"
+    } else if ans.starts_with("ok:") {
+        if c.off as usize + (if c.implicit { c.alt } else { c.len }) as usize > 256 {
+            "ok-wraps"
+        } else {
+            "ok"
+        }
+    } else if ans.starts_with("err:OpError") {
+        "err-status"
+    } else if ans.starts_with("err:PayloadSizeMismatch") {
+        "err-too-long"
+    } else if ans.starts_with("err:") {
+        "err-io-fault"
+    } else {
+        "PANIC"
+    };
+    format!("sx{}-{}-{}", c.chip, if c.implicit { "implicit" } else { "explicit" }, r)
+}
+
+pub fn run(tier: &str, seed: u64, dir: &str) {
+    let mut rng = Rng::new(seed);
+    let mut sink = Sink::new(dir);
+    let thorough = tier == "thorough";
+    // 1. the whole quantifier for a non-error status: 256 lengths x 256 offsets per (chip, bufsize, header) as digest blocks
+    let mut seeds = vec![0u64, rng.below(256)];
+    if thorough {
+        seeds.push(rng.below(256));
+        seeds.push(rng.below(256));
+    }
+    for chip in [126u32, 127] {
+        for &bs in &BUF_SIZES {
+            for implicit in [0u8, 1] {
+                for (k, &sd) in seeds.iter().enumerate() {
+                    // status 0x04 = "data available", 0x00 = reserved/none, both not errors
+                    let status = if chip == 126 && k % 2 == 1 { 0x04 } else { 0 };
+                    let op = format!("C18 rx_digest {} {} {} {} {}", chip, status, bs, implicit, sd);
+                    sink.case_w(&op, &eval(&op), &format!("digest-sx{}-{}", chip, if implicit == 1 { "implicit" } else { "explicit" }), true, 65536);
+                }
+            }
+        }
+    }
+    // 2. every status byte (SX126x) x buffer sizes x header mode x a few (len, off) pairs
+    for status in 0..=255u8 {
+        for &bs in &BUF_SIZES {
+            for implicit in [false, true] {
+                for (len, off) in [(0u8, 0u8), (12, 250), (255, 1), (bs.min(255) as u8, 200)] {
+                    let (len, alt) = if implicit { (len ^ 0x33, len) } else { (len, len ^ 0x33) };
+                    let c = Case { chip: 126, status, len, off, alt, bufsize: bs, implicit, fault: None, seed: status as u64 };
+                    let op = case_op("rx", &c);
+                    let a = eval(&op);
+                    sink.case(&op, &a, &class_of(&c, &a), true);
+                }
+            }
+        }
+    }
+    // 3. boundary cases spelled out one by one (also readable samples): len around bufsize, wrap-around offsets
+    for chip in [126u32, 127] {
+        for &bs in &BUF_SIZES {
+            for implicit in [false, true] {
+                let mut lens: Vec<i64> = vec![0, 1, bs as i64 - 1, bs as i64, bs as i64 + 1, 254, 255];
+                lens.retain(|l| (0..=255).contains(l));
+                lens.sort();
+                lens.dedup();
+                for &l in &lens {
+                    for off in [0u8, 1, 128, 255, (256 - l.min(255)) as u8, (257 - l.min(256)) as u8] {
+                        let l = l as u8;
+                        let (len, alt) = if implicit { (l.wrapping_add(7), l) } else { (l, l.wrapping_add(7)) };
+                        let sd = rng.below(256);
+                        let c = Case { chip, status: 0x04, len, off, alt, bufsize: bs, implicit, fault: None, seed: sd };
+                        let op = case_op("rx", &c);
+                        let a = eval(&op);
+                        sink.case(&op, &a, &class_of(&c, &a), true);
+                        if chip == 127 {
+                            let op = case_op("rxp", &c);
+                            sink.case(&op, &eval(&op), "sx127-fifo-pointer", true);
+                        }
+                    }
+                }
+            }
+        }
+    }
+    // 4. an I/O fault at every step
+    for chip in [126u32, 127] {
+        for implicit in [false, true] {
+            for fault in 0..10usize {
+                for (bs, l, off) in [(64usize, 12u8, 250u8), (12, 12, 0), (12, 13, 0), (256, 255, 255), (0, 0, 9)] {
+                    let (len, alt) = if implicit { (l ^ 0x11, l) } else { (l, l ^ 0x11) };
+                    let c = Case { chip, status: 0, len, off, alt, bufsize: bs, implicit, fault: Some(fault), seed: fault as u64 };
+                    let op = case_op("rx", &c);
+                    let a = eval(&op);
+                    sink.case(&op, &a, &class_of(&c, &a), true);
+                    if chip == 127 {
+                        let op = case_op("rxp", &c);
+                        sink.case(&op, &eval(&op), "sx127-fifo-pointer", true);
+                    }
+                }
+            }
+        }
+    }
+    // 5. seeded random cases over the full tuple (malformed combinations included: any status, any fault step)
+    let n_rand = if thorough { 200_000 } else { 20_000 };
+    for _ in 0..n_rand {
+        let chip = if rng.chance(1, 2) { 126 } else { 127 };
+        let status = if rng.chance(3, 4) { *rng.pick(&[0u8, 0x04, 0x24, 0x2c, 0xff, 0x01]) } else { rng.below(256) as u8 };
+        let bs = if rng.chance(7, 8) { *rng.pick(&BUF_SIZES) } else { rng.below(300) as usize };
+        let c = Case {
+            chip,
+            status,
+            len: rng.below(256) as u8,
+            off: rng.below(256) as u8,
+            alt: rng.below(256) as u8,
+            bufsize: bs,
+            implicit: rng.chance(1, 2),
+            fault: if rng.chance(1, 6) { Some(rng.below(10) as usize) } else { None },
+            seed: rng.below(256),
+        };
+        let op = case_op("rx", &c);
+        let a = eval(&op);
+        sink.case(&op, &a, &class_of(&c, &a), true);
+    }
+    // 6. RadioBuffer: every position 0..N+2 for N in {1,16,255,256}; extend_from_slice around the limit
+    for n in [1usize, 16, 255, 256] {
+        for pos in 0..=n + 2 {
+            let op = format!("C18 rb {} {}", n, pos);
+            let a = eval(&op);
+            sink.case(&op, &a, if a == "PANIC" { "radiobuffer-pos-beyond-N" } else { "radiobuffer-pos" }, true);
+        }
+        for pos in [0usize, 1, n / 2, n.saturating_sub(1), n] {
+            for len in [0usize, 1, n.saturating_sub(pos + 1), n.saturating_sub(pos), n - pos.min(n) + 1, 300] {
+                let op = format!("C18 rbext {} {} {}", n, pos, len);
+                let a = eval(&op);
+                sink.case(&op, &a, if a.starts_with("full") { "radiobuffer-extend-full" } else { "radiobuffer-extend" }, true);
+            }
+        }
+    }
+    // 7. the LoRaWAN adapter: LoRa::rx through LorawanRadio::rx_single into RadioBuffer<256>
+    for chip in [126u32, 127] {
+        let lens: Vec<u8> = if thorough { (0..=255u8).collect() } else { vec![0, 1, 12, 23, 64, 128, 222, 242, 254, 255] };
+        for &len in &lens {
+            for off in [0u8, 1, 200, 255] {
+                let op = format!("C18 adapter {} {} {} {}", chip, len, off, rng.below(256));
+                sink.case(&op, &eval(&op), &format!("adapter-sx{}", chip), true);
+            }
+        }
+    }
+    sink.finish(
+        dir,
+        "get_rx_payload of the real Sx126x<Sx1262>/Sx127x<Sx1276> drivers over wire-level fake chips: digest blocks = all 256 reported lengths x 256 offsets for every (chip, caller buffer size in {0,1,12,64,255,256}, explicit/implicit header, chip-buffer seed), explicit: len=a, implicit: configured length=a (the other length is a^0x5a to show it is ignored); all 256 SX126x status bytes x sizes x header; boundary lengths/offsets one by one; an SPI/busy fault at every I/O step; seeded random tuples incl. non-standard buffer sizes; RadioBuffer<N> set_pos/as_mut_for_read/as_ref_for_read for every pos 0..N+2 and extend_from_slice around the limit (real radio.rs compiled in by path); LorawanRadio::rx_single end to end. The caller's slice sits between 2x16 canary bytes; every call runs under catch_unwind. Distinct = distinct op lines; every case is non-trivial (a concrete result and buffer image compared with model and spec).",
+        true,
+        serde_json::json!({"buffer_sizes": BUF_SIZES, "digest_block_cases": 65536}),
+    );
 }
